@@ -9,6 +9,13 @@ Observation points per case: `make()(input_iterator=stream)`, `iterate(stream)` 
 `it.agg_result`, the `AggregateResult` carried by `StopIteration`, the data-source form
 `make()()`, the `update_state`/`get_result` API, a split-and-`merge_states` run, and the
 same pipeline without (or with fewer) slicers for the unsliced part.
+
+A quarter of the cases come from the 'ext' input classes of `vlib/oracles/c02_ext.py`
+(2-D input columns, default output key next to slicers, restricted values over a
+feature cross, ragged / mixed-type list columns, Key.Literal inputs, tuple / namedtuple
+/ ndarray results). A failure there gets the stable mechanism key of its input class
+(`c02_ext.classify_raise` / `classify_diffs` / `typed_diffs`), decided from the
+structure of the case and the form of the failure, never from a seed or a message alone.
 """
 
 from __future__ import annotations
@@ -25,15 +32,34 @@ RULE = (
     'without replace_mask_false_with) over 0-6 batches of 0-6 rows with per-batch '
     'restricted feature alphabets; seeded random; non-trivial = >= 1 slicer, >= 2 '
     'batches and a slicer with >= 2 slice values of which one is absent from the first '
-    'batch; distinct = hash of spec + stream')
+    'batch; distinct = hash of spec + stream. A quarter of the cases come from the '
+    '"ext" input classes (one per case, on an ordinary pipeline; c02_ext.py): 2-D '
+    '(batch x dim) input columns as ndarray / list of rows with dim equal to or '
+    'different from the batch length, filtered or replaced; the default (SELF) output '
+    'key next to slicers with scalar / list / dict results; restricted value sets over '
+    'a cross of 2-3 features; ragged and mixed-type list columns with and without '
+    'slicers; Key.Literal inputs (int, float, str, list) with and without slicers; '
+    'results that are tuples, namedtuples, multi-element ndarrays or lists / dicts '
+    'containing them under named, dict-form and default output keys (container types '
+    'are compared, not only values). A failure is attributed to an input class only '
+    'if the case (for values: the aggregate x slicer pair of every differing key) '
+    'structurally belongs to it and the failure has the form that class produces')
 ASSUMPTIONS = [
     'batches are dicts of equal-length columns (lists or numpy arrays of ints / strs); '
-    'nested (ragged list) columns are only aggregated unsliced or under intra-example '
-    'masks, because a row mask is applied with numpy indexing',
-    'feature values of one column have one type (no 1 / True / 1.0 mixtures)',
-    'aggregates that are sliced have named output keys (a sliced Key.SELF output is not '
-    'insertable into the result tree) and slice names are unique per pipeline',
-    'restricted value sets use the single-key form add_slice({feature: values})',
+    'in the row / intra families nested columns are only aggregated unsliced or under '
+    'intra-example masks; the ext family also row-slices 2-D columns and ragged / '
+    'mixed-type LIST columns (str with int, int or str with None), in filter mode only '
+    'for the ragged / mixed ones',
+    'the values of one slicing feature column have one type (no 1 / True / 1.0 '
+    'mixtures); mixed-type list columns are aggregate inputs only, never slicer keys',
+    'slice names are unique per pipeline; a SELF-keyed (default output key) aggregate '
+    'is the only aggregate of its pipeline (the library forbids mixing SELF with other '
+    'output keys); with slicers its un-sliced result is read from the root of the '
+    'reported tree and its slice results from the MetricKey(SELF, slice) entries; if '
+    'the library rejects SELF + slicers when the pipeline is built the case is skipped',
+    'restricted value sets over several features, add_slice({a: A, b: B}), mean the '
+    'cross (a, b) restricted to rows with a in A and b in B, under the slice name '
+    '(a, b) or a user name of the same arity',
     'aggregates taking the whole batch dict (Key.SELF input) are sliced only when every '
     'column is a numpy array and no replace value is set (apply_mask documents that dict '
     'leaves must be non-sequences)',
@@ -41,6 +67,15 @@ ASSUMPTIONS = [
     'with replace_mask_false_with a batch in which a slice has no member row contributes '
     'nothing to that slice (the slicer emits no mask for it); rows masked out in batches '
     'where the slice does occur contribute the replacement value',
+    'for a masked-out row of a 2-D (batch x dim) column replace_mask_false_with=v may '
+    'yield either [v] * dim or v (both are accepted); user slice_mask_fn row masks are '
+    'combined with 2-D inputs in filter mode only (add_slice documents user masks of '
+    'the shape of the masked input)',
+    'a Key.Literal input reaches the aggregate function unchanged on every call, also '
+    'on the calls for slices',
+    'typed results: a plain top-level tuple result is used with ONE output key only '
+    '(then it is the value of that key, as TreeMapView.set stores it); multi-element '
+    'ndarray results have >= 2 elements; SELF-keyed typed results are not sliced',
     'a user slice_mask_fn decides in which batches a slice is emitted (present values '
     'only, or a fixed vocabulary for every batch); the oracle models exactly that',
     'MeanAndVariance / ConfusionMatrixAggFn only see streams with >= 1 batch and no empty '
@@ -60,15 +95,26 @@ REQUIRED = [
     'agg:fracmean_has', 'agg:meanvar', 'agg:cm',
     'shape:tuple_in', 'shape:dict_in', 'shape:self_in', 'shape:tuple_out',
     'shape:dict_out', 'shape:noslice',
+    'ext:col2d_filter', 'ext:col2d_replace', 'ext:col2d_dim_eq_batch',
+    'ext:col2d_dim_ne_batch', 'ext:selfkey_scalar_result', 'ext:selfkey_list_result',
+    'ext:selfkey_dict_result', 'ext:wcross', 'ext:ragged_sliced', 'ext:ragged_unsliced',
+    'ext:mixed_sliced', 'ext:mixed_unsliced', 'ext:literal_sliced',
+    'ext:literal_unsliced', 'ext:shaped_tuple', 'ext:shaped_namedtuple',
+    'ext:shaped_list_tuple', 'ext:shaped_dict_tuple', 'ext:shaped_dict_namedtuple',
+    'ext:shaped_ndarray', 'ext:shaped_ndarray2d', 'ext:shaped_dict_ndarray',
+    'ext:shaped_self', 'ext:shaped_sliced', 'typed_result_checks',
 ]
 CHUNK_TIMEOUT_S = {'quick': 240, 'thorough': 3000}
+
+
+EXT_SHARE = 0.25  # share of cases drawn from the 'ext' input classes (c02_ext.py)
 
 
 def plan(tier, seed):
   if tier == 'quick':
     chunks, per = 32, 160
   else:
-    chunks, per = 64, 1570
+    chunks, per = 64, 1800
   specs = [{'mode': 'selftest'}, {'mode': 'directed'}]
   for i in range(chunks):
     specs.append({'mode': 'random', 'index': i, 'count': per, 'rseed': seed})
@@ -463,6 +509,10 @@ def gen_intra_case(rng):
 
 
 def gen_case(rng):
+  r = rng.random()
+  if r < EXT_SHARE:
+    from vlib.oracles import c02_ext
+    return c02_ext.gen_ext_case(rng)
   return gen_intra_case(rng) if rng.random() < 0.25 else gen_row_case(rng)
 
 
@@ -531,10 +581,14 @@ def _is_empty_call_defect(obs, case, exc):
           and 'last() was called on an empty iterable' in str(exc))
 
 
-def _report_characterised(ctx, mech, kind, case, detail, keep=2):
+_KEEP = {'n': 2}
+
+
+def _report_characterised(ctx, mech, kind, case, detail, keep=None):
   """A defect whose mechanism is already pinned down: every hit is counted
   ('viol:<mechanism>'), only the first `keep` per chunk are kept as witnesses so
   that they cannot crowd out a new violation class."""
+  keep = _KEEP['n'] if keep is None else keep
   seen = ctx.counters.get('viol:' + mech, 0)
   ctx.count('viol:' + mech)
   if seen < keep:
@@ -552,6 +606,7 @@ def _slicer_kind_of(case, key):
 
 
 def check_case(ctx, case, want_override=None, tag=None):
+  from vlib.oracles import c02_ext as X
   from vlib.oracles import c02_model as M
   case = json.loads(json.dumps(case))
   try:
@@ -564,6 +619,22 @@ def check_case(ctx, case, want_override=None, tag=None):
   self_output = case['aggs'][0]['out'] is None
   nontrivial = bool(case['slicers']) and nb >= 2 and stats['late']
   ctx.case(case, nontrivial)
+  feats = X.features_of(case, want)
+  for name in feats['counters']:
+    ctx.count(name)
+  want_alt = None
+  if feats['alt_replace']:
+    # Second accepted reading of "replace" for a masked-out row of a 2-D column.
+    want_alt, _ = M.expected(case, repl_rows='scalar')
+  if X.SELFSLICE in feats['case']:
+    # A default (SELF) output key next to slice keys: if the library refuses the
+    # combination when the pipeline is BUILT, the input is declared invalid.
+    try:
+      M.build(case)
+    except Exception as e:  # pylint: disable=broad-exception-caught
+      ctx.count('selfkey_rejected_at_build')
+      ctx.observe('selfkey_rejected_at_build', f'{type(e).__name__}: {str(e)[:120]}')
+      return
   if nontrivial:
     ctx.count('late_slice_cases')
   if nb == 0:
@@ -631,13 +702,21 @@ def check_case(ctx, case, want_override=None, tag=None):
              'want': {repr(k): v for k, v in want.items()}})
       else:
         cause = e.__cause__
-        ctx.violation('raised', dict(case, _obs=obs),
-                      {'obs': obs, 'error': f'{type(e).__name__}: {str(e)[:300]}',
-                       'cause': f'{type(cause).__name__}: {str(cause)[:300]}' if cause else None},
-                      mechanism=f'raised@{obs}')
+        detail = {'obs': obs, 'error': f'{type(e).__name__}: {str(e)[:300]}',
+                  'cause': f'{type(cause).__name__}: {str(cause)[:300]}' if cause else None}
+        mech = X.classify_raise(feats, e)
+        if mech:
+          # The case belongs to an input class whose failure has exactly this form.
+          _report_characterised(ctx, mech, 'raised', dict(case, _obs=obs), detail)
+        else:
+          ctx.violation('raised', dict(case, _obs=obs), detail,
+                        mechanism=f'raised@{obs}')
       continue
     results[obs] = got
     d = M.diff(want, got)
+    if d and want_alt is not None and not M.diff(want_alt, got):
+      ctx.count('replace_2d_scalar_reading_accepted')
+      d = []
     ctx.count('slice_keys_checked', sum(1 for k in want if k[1] is not None))
     ctx.count('unsliced_checks', sum(1 for k in want if k[1] is None))
     if d:
@@ -645,13 +724,29 @@ def check_case(ctx, case, want_override=None, tag=None):
       mech = f'{kind}@{obs}/{_slicer_kind_of(case, key)}'
       detail = {'obs': obs, 'key': repr(key), 'want': w, 'got': g, 'n_diffs': len(d),
                 'kinds': sorted({x[0] for x in d}), 'cut': arg}
+      class_mech = X.classify_diffs(feats, d)
       if self_output and not w and 'tree.NullMap object' in repr(g):
         # Key.SELF output whose value is falsy (0, [], {}): the root-level value is
         # lost when the per-runner result is flattened with TreeMapView.items().
         _report_characterised(ctx, 'self-output-falsy-result-nullmap', kind,
                               dict(case, _obs=obs), detail)
+      elif class_mech:
+        _report_characterised(ctx, class_mech, kind, dict(case, _obs=obs), detail)
       else:
         ctx.violation(kind, dict(case, _obs=obs), detail, mechanism=mech)
+    if feats['shaped_keys']:
+      # Container types of the reported values (tuple / namedtuple / ndarray), on the
+      # keys whose list-ified values agree.
+      ctx.count('typed_result_checks')
+      for key, tw, tg, tmech in X.typed_diffs(feats, want, raw, self_output):
+        detail = {'obs': obs, 'key': repr(key), 'want': tw, 'got': tg}
+        if tmech:
+          _report_characterised(ctx, tmech, 'result_type_differs',
+                                dict(case, _obs=obs), detail)
+        else:
+          ctx.violation('result_type_differs', dict(case, _obs=obs), detail,
+                        mechanism=f'result_type_differs@{obs}')
+        break
   # Unsliced part must not depend on the slicer set.
   if case['slicers']:
     twins = [('no_slicers', None)]
@@ -666,9 +761,15 @@ def check_case(ctx, case, want_override=None, tag=None):
         if _is_empty_call_defect(obs, case, e):
           ctx.count('viol:call-empty-input-iterator')
           continue  # already reported at 'call'
-        ctx.violation('raised', dict(case, _obs=obs),
-                      {'obs': obs, 'error': f'{type(e).__name__}: {str(e)[:300]}'},
-                      mechanism=f'raised@{obs}')
+        # Input classes of the pipeline that actually ran (fewer / no slicers).
+        kept = [s for j, s in enumerate(case['slicers']) if arg and j in arg]
+        mech = X.classify_raise(X.features_of(dict(case, slicers=kept), want), e)
+        detail = {'obs': obs, 'error': f'{type(e).__name__}: {str(e)[:300]}'}
+        if mech:
+          _report_characterised(ctx, mech, 'raised', dict(case, _obs=obs), detail)
+        else:
+          ctx.violation('raised', dict(case, _obs=obs), detail,
+                        mechanism=f'raised@{obs}')
         continue
       got_unsliced = {k: v for k, v in got.items() if k[1] is None}
       d = M.diff(want_unsliced, got_unsliced)
@@ -678,12 +779,23 @@ def check_case(ctx, case, want_override=None, tag=None):
                       mechanism='key_invented@no_slicers')
       if d:
         kind, key, w, g = d[0]
-        ctx.violation('unsliced_changes_with_slicers', dict(case, _obs=obs),
-                      {'obs': obs, 'key': repr(key), 'want': w, 'got': g, 'kept': arg},
-                      mechanism=f'unsliced_changes_with_slicers@{obs}')
+        detail = {'obs': obs, 'key': repr(key), 'want': w, 'got': g, 'kept': arg}
+        if self_output and not w and 'tree.NullMap object' in repr(g):
+          # the known falsy-root defect, here on the twin run of a SELF-keyed pipeline
+          _report_characterised(ctx, 'self-output-falsy-result-nullmap',
+                                'unsliced_differs', dict(case, _obs=obs), detail)
+        else:
+          ctx.violation('unsliced_changes_with_slicers', dict(case, _obs=obs), detail,
+                        mechanism=f'unsliced_changes_with_slicers@{obs}')
       if 'call' in results:
         sliced_unsliced = {k: v for k, v in results['call'].items() if k[1] is None}
-        if M.diff(sliced_unsliced, got_unsliced):
+        dd = M.diff(sliced_unsliced, got_unsliced)
+        if dd and self_output and all('tree.NullMap object' in repr(x) or not x
+                                      for x in (dd[0][2], dd[0][3])):
+          # A falsy root reported as a placeholder object on one or both runs: the
+          # known falsy-root defect, reported above against the expected value.
+          dd = []
+        if dd:
           ctx.violation('unsliced_changes_with_slicers', dict(case, _obs=obs),
                         {'obs': obs, 'with': {repr(k): v for k, v in sliced_unsliced.items()},
                          'without': {repr(k): v for k, v in got_unsliced.items()}},
@@ -799,6 +911,31 @@ def _selftests():
                     ('precision', sk(['classes'], [1])): 1.0,
                     ('recall', sk(['classes'], [0])): 1.0,
                     ('recall', sk(['classes'], [1])): 2 / 3}}))
+  # Oracle semantics of the 'ext' input classes, worked out by hand.
+  GH = [{'g': ['u', 'v', 'u', 'u'], 'h': [0, 1, 1, 2], 'w': [2, 3, 5, 7]},
+        {'g': ['v', 'u'], 'h': [1, 1], 'w': [11, 13]}]
+  sc_w = {'fn': 'sumcount', 'in': ['w'], 'single': True, 'out': 'sc', 'noslice': False,
+          'opt': {'shape': 'list'}}
+  tests.append(('restricted_values_over_cross', case(
+      GH, [sc_w], [{'kind': 'wcross', 'keys': ['g', 'h'], 'values': [['u'], [1, 2]]}]),
+      {('sc', None): [41, 6], ('sc', sk(['g', 'h'], ['u', 1])): [18, 2],
+       ('sc', sk(['g', 'h'], ['u', 2])): [7, 1]}))
+  M2 = [{'m': [[1, 2, 3], [4, 5, 6]], 'f': ['p', 'q']}, {'m': [[7, 8, 9]], 'f': ['p']}]
+  c2 = case(M2, [{'fn': 'sumcount', 'in': ['m'], 'single': True, 'out': 'ms',
+                  'noslice': False, 'opt': {'shape': 'list'}}],
+            [{'kind': 'single', 'keys': ['f'], 'replace': 0}], {'m': 'array2d'})
+  c2['dims'] = {'m': 3}
+  tests.append(('replace_rows_of_2d_column', c2,
+                {('ms', None): [45, 9], ('ms', sk(['f'], ['p'])): [30, 9],
+                 ('ms', sk(['f'], ['q'])): [15, 6]}))
+  tests.append(('literal_input_sliced', case(
+      [{'s': [3, 8, 6], 'f': ['p', 'q', 'p']}],
+      [{'fn': 'collect', 'in': ['s', {'lit': 5}], 'single': False, 'out': 'rows',
+        'noslice': False, 'opt': {}}],
+      [{'kind': 'single', 'keys': ['f']}]),
+      {('rows', None): [[3, 5], [8, 5], [6, 5]],
+       ('rows', sk(['f'], ['p'])): [[3, 5], [6, 5]],
+       ('rows', sk(['f'], ['q'])): [[8, 5]]}))
   return tests
 
 
@@ -831,10 +968,61 @@ def _directed():
       # named output with a falsy value, sliced (slice sums are 0 too)
       case(two, [agg('sumcount', ['x'], 'sum', shape='scalar')],
            [{'kind': 'single', 'keys': ['f0']}]),
-  ]
+  ] + _directed_ext(case, agg)
+
+
+def _directed_ext(case, agg):
+  """One small case per 'ext' input class and sub-class (see c02_ext.py), so that
+  every class is exercised whatever the seed."""
+  f = {'kind': 'single', 'keys': ['f0']}
+  fr = {'kind': 'single', 'keys': ['f0'], 'replace': -1}
+  out = []
+  # 2-D columns: dim == batch length (3) and dim != batch length, ndarray and list rows
+  sq = [{'f0': [0, 1, 0], 'm': [[1, 2, 3], [4, 5, 6], [7, 8, 9]], 'x': [1, 2, 3]},
+        {'f0': [1, 1], 'm': [[3, 1, 4], [1, 5, 9]], 'x': [4, 5]}]
+  for container in ('array2d', 'list'):
+    for sl in (f, fr):
+      c = case(sq, [agg('collect', ['m', 'x'], 'mrows')], [sl])
+      c['containers'] = {'m': container}
+      c['dims'] = {'m': 3}
+      out.append(c)
+  # default output key next to slicers: scalar, list and dict results
+  flat = [{'f0': [2, 0, 2], 'x': [5, 6, 7]}, {'f0': [0], 'x': [8]}]
+  for shape in ('scalar', 'list', 'dict'):
+    out.append(case(flat, [agg('sumcount', ['x'], None, shape=shape)], [f]))
+  # restricted values over a cross of two / three features
+  tri = [{'f0': [0, 1, 1, 0], 'f1': [2, 2, 0, 0], 'f2': ['a', 'b', 'b', 'a'],
+          'x': [1, 2, 3, 4]}, {'f0': [1], 'f1': [2], 'f2': ['b'], 'x': [5]}]
+  out.append(case(tri, [agg('collect', ['x'], 'rows')],
+                  [{'kind': 'wcross', 'keys': ['f0', 'f1'], 'values': [[1], [2, 0]]}]))
+  out.append(case(tri, [agg('collect', ['x'], 'rows')],
+                  [{'kind': 'wcross', 'keys': ['f2', 'f0', 'f1'],
+                    'values': [['b', 'zz'], [1, 0], [0]]}]))
+  out.append(case(tri, [agg('collect', ['x'], 'rows')],   # no row is inside
+                  [{'kind': 'wcross', 'keys': ['f0', 'f1'], 'values': [[7], [9]]}]))
+  # ragged / mixed-type list columns, with and without a slicer
+  rag = [{'f0': [3, 3, 1], 'lc': [[4], [], [2, 2, 8]]}, {'f0': [1, 3], 'lc': [[6, 1], [5]]}]
+  mix = [{'f0': [3, 3, 1], 'lc': ['k', 12, 'q']}, {'f0': [1, 3], 'lc': [30, 'k']}]
+  for stream in (rag, mix):
+    out.append(case(stream, [agg('collect', ['lc'], 'lrows')], [f]))
+    out.append(case(stream, [agg('collect', ['lc'], 'lrows')]))
+  # a literal among the inputs, with and without a slicer, scalar and sequence
+  for lit in (2, 'micro', [4, 4, 4]):
+    a = agg('collect', ['x', {'lit': lit}], 'krows')
+    out.append(case(flat, [a], [f]))
+    out.append(case(flat, [a]))
+  # typed results: named key, sliced; default key
+  for rshape in ('tuple', 'namedtuple', 'list_tuple', 'dict_tuple', 'dict_namedtuple',
+                 'ndarray', 'ndarray2d', 'dict_ndarray'):
+    out.append(case(flat, [agg('shaped', ['x'], 'res', rshape=rshape)], [f]))
+    out.append(case(flat, [agg('shaped', ['x'], None, rshape=rshape)]))
+  return out
 
 
 def run_chunk(ctx, spec):
+  # The literal chunks come first in the report: one witness per mechanism there, so
+  # that the first replay files cover different mechanisms.
+  _KEEP['n'] = 1 if spec['mode'] in ('selftest', 'directed') else 2
   if spec['mode'] == 'selftest':
     _run_selftest(ctx)
     return
